@@ -1,8 +1,63 @@
 import Genshi.Wire
+import Genshi.Model.PyGen
+import Genshi.Model.PyParse
+import Genshi.Model.PyParseS
+import Driver.PyWire
 namespace Driver.C13
-open Genshi
+open Genshi Genshi.Py Genshi.Sexp Driver.PyWire
 
-/-- stub: the model driver for C13 is not built yet -/
-def handle : List Sexp → Option Sexp := fun _ => none
+/-- `gen tree` / `genS (stmt…)`: the tokens of the regenerated source, `raises` when the model
+    says the generator raises, `unmodelled` when the tree is outside the modelled syntax -/
+def handle : List Sexp → Option Sexp
+  | [.atom "gen", t] =>
+      match decE t with
+      | none => some (.atom "unmodelled")
+      | some e =>
+        match genE e with
+        | none => some (.atom "raises")
+        | some toks => some (.list [.atom "ok", .list (toks.map encTok)])
+  | [.atom "genS", .list ss] =>
+      match ss.mapM decS with
+      | none => some (.atom "unmodelled")
+      | some body =>
+        match genModule body with
+        | none => some (.atom "raises")
+        | some ls => some (.list [.atom "ok", .list (ls.map encLine)])
+  | [.atom "parse", .list ts] =>
+      match ts.mapM decTok with
+      | none => some (.atom "unmodelled")
+      | some toks =>
+        match pyParse toks with
+        | none => some (.atom "none")
+        | some e => some (.list [.atom "ok", encE e])
+  | [.atom "roundtrip", t] =>
+      -- pyParse (gen e) = some e ?  (answers T / F / raises)
+      match decE t with
+      | none => some (.atom "unmodelled")
+      | some e =>
+        match genE e with
+        | none => some (.atom "raises")
+        | some toks =>
+          match pyParse toks with
+          | none => some (.atom "none")
+          | some e' => some (.list [.atom "ok", encE e'])
+  | [.atom "parseS", .list ls] =>
+      match ls.mapM decLine with
+      | none => some (.atom "unmodelled")
+      | some lines =>
+        match pyParseS lines with
+        | none => some (.atom "none")
+        | some ss => some (.list [.atom "ok", .list (ss.map encS)])
+  | [.atom "roundtripS", .list ss] =>
+      match ss.mapM decS with
+      | none => some (.atom "unmodelled")
+      | some body =>
+        match genModule body with
+        | none => some (.atom "raises")
+        | some lines =>
+          match pyParseS lines with
+          | none => some (.atom "none")
+          | some ss' => some (.list [.atom "ok", .list (ss'.map encS)])
+  | _ => none
 
 end Driver.C13
